@@ -249,6 +249,7 @@ pub struct TreeMachine {
     max_live_leaves: usize,
     max_live_branches: usize,
     damaged: bool,
+    damage_kind: Option<String>,
     pub events: BTreeMap<String, u64>,
 }
 
@@ -328,6 +329,7 @@ impl TreeMachine {
             max_live_leaves: 0,
             max_live_branches: 0,
             damaged: false,
+            damage_kind: None,
             events: BTreeMap::new(),
         }
     }
@@ -877,8 +879,19 @@ impl TreeMachine {
                 let ci = m.check_invariants();
                 let cd = m.check_invariants_detailed();
                 let v = m.validate();
+                let vo = m.validate_for_operation("verif");
                 if cd.is_ok() != v.is_ok() {
                     self.fail("C14", "validate() and check_invariants_detailed() disagree".into());
+                }
+                if let Some(kind) = self.damage_kind.clone() {
+                    self.ev(&format!("damage:{}", kind));
+                    let node_level = matches!(kind.as_str(), "unsorted" | "duplicate" | "count-mismatch" | "over-capacity" | "underfull" | "empty-node" | "out-of-interval" | "arity" | "dangling-child");
+                    if node_level && ci {
+                        self.fail("C14", format!("check_invariants() accepts a map damaged by `{}`", kind));
+                    }
+                    if cd.is_ok() || vo.is_ok() {
+                        self.fail("C14", format!("check_invariants_detailed()/validate()/validate_for_operation() accept a map damaged by `{}`", kind));
+                    }
                 }
                 format!("invariants={} detailed={}", ci, detailed_kind(&cd))
             }
@@ -1035,6 +1048,196 @@ impl TreeMachine {
                 out
             }
             ["dump"] => dump(&snapshot(self.map.as_ref().unwrap())),
+            _ => "bad-op".into(),
+        }
+    }
+}
+
+fn parse_keys(s: &str) -> Option<Vec<Key>> {
+    if s == "-" {
+        return Some(Vec::new());
+    }
+    s.split(',').map(|w| pk(w).map(|(o, sr)| Key::new(o, sr))).collect()
+}
+fn parse_nats(s: &str) -> Option<Vec<u64>> {
+    if s == "-" {
+        return Some(Vec::new());
+    }
+    s.split(',').map(|w| w.parse::<u64>().ok()).collect()
+}
+fn parse_ref(s: &str) -> Option<NodeRef<Key, Val>> {
+    let id = s[1..].parse::<u32>().ok()?;
+    match &s[..1] {
+        "L" => Some(NodeRef::Leaf(id, PhantomData)),
+        "B" => Some(NodeRef::Branch(id, PhantomData)),
+        _ => None,
+    }
+}
+
+impl TreeMachine {
+    /// raw-state operations: damage injection through the cfg-guarded hooks (C14) and
+    /// the crate's safe public node/arena helpers (C15)
+    pub fn exec_x(&mut self, ws: &[&str]) -> String {
+        if self.dead {
+            return "dead".into();
+        }
+        if self.map.is_none() {
+            return "bad-op".into();
+        }
+        match catch_unwind(AssertUnwindSafe(|| self.exec_x_inner(ws))) {
+            Ok(s) => s,
+            Err(p) => {
+                self.dead = true;
+                let msg = p.downcast_ref::<String>().cloned().or_else(|| p.downcast_ref::<&str>().map(|s| s.to_string())).unwrap_or_default();
+                if msg.contains("VERIF-HOOK") {
+                    self.fail("C15", format!("unchecked access outside its precondition in `X {}`: {}", ws.join(" "), msg));
+                    return "ub".into();
+                }
+                if let Some(m) = self.map.take() {
+                    std::mem::forget(m);
+                }
+                "panic".into()
+            }
+        }
+    }
+    fn exec_x_inner(&mut self, ws: &[&str]) -> String {
+        let map = self.map.as_mut().unwrap();
+        match ws {
+            ["toraw"] => {
+                self.damaged = true;
+                self.damage_kind = None;
+                "ok".into()
+            }
+            ["note", kind, ..] => {
+                self.damage_kind = Some(kind.to_string());
+                "ok".into()
+            }
+            ["leaf-keys", id, ks] => {
+                let (Ok(id), Some(ks)) = (id.parse::<u32>(), parse_keys(ks)) else { return "bad-op".into() };
+                self.damaged = true;
+                match map.get_leaf_mut(id) {
+                    Some(l) => {
+                        *l.verif_fields_mut().1 = ks;
+                        "true".into()
+                    }
+                    None => "false".into(),
+                }
+            }
+            ["leaf-vals", id, vs] => {
+                let (Ok(id), Some(vs)) = (id.parse::<u32>(), parse_nats(vs)) else { return "bad-op".into() };
+                self.damaged = true;
+                match map.get_leaf_mut(id) {
+                    Some(l) => {
+                        *l.verif_fields_mut().2 = vs.into_iter().map(Val::new).collect();
+                        "true".into()
+                    }
+                    None => "false".into(),
+                }
+            }
+            ["leaf-next", id, n] => {
+                let (Ok(id), Ok(n)) = (id.parse::<u32>(), n.parse::<u32>()) else { return "bad-op".into() };
+                self.damaged = true;
+                format!("{}", map.set_leaf_next(id, n))
+            }
+            ["branch-keys", id, ks] => {
+                let (Ok(id), Some(ks)) = (id.parse::<u32>(), parse_keys(ks)) else { return "bad-op".into() };
+                self.damaged = true;
+                match map.get_branch_mut(id) {
+                    Some(b) => {
+                        *b.verif_fields_mut().1 = ks;
+                        "true".into()
+                    }
+                    None => "false".into(),
+                }
+            }
+            ["branch-children", id, cs] => {
+                let Ok(id) = id.parse::<u32>() else { return "bad-op".into() };
+                let refs: Option<Vec<NodeRef<Key, Val>>> = if *cs == "-" { Some(Vec::new()) } else { cs.split(',').map(parse_ref).collect() };
+                let Some(refs) = refs else { return "bad-op".into() };
+                self.damaged = true;
+                match map.get_branch_mut(id) {
+                    Some(b) => {
+                        *b.verif_fields_mut().2 = refs;
+                        "true".into()
+                    }
+                    None => "false".into(),
+                }
+            }
+            ["set-root", r] => {
+                let Some(r) = parse_ref(r) else { return "bad-op".into() };
+                self.damaged = true;
+                map.verif_set_root(r);
+                "ok".into()
+            }
+            ["alloc-leaf", c] => {
+                let Ok(c) = c.parse::<usize>() else { return "bad-op".into() };
+                self.damaged = true;
+                format!("id {}", map.allocate_leaf(LeafNode::new(c)))
+            }
+            ["dealloc-leaf", id] => {
+                let Ok(id) = id.parse::<u32>() else { return "bad-op".into() };
+                self.damaged = true;
+                match map.deallocate_leaf(id) {
+                    Some(l) => format!("some {}", l.keys_len()),
+                    None => "none".into(),
+                }
+            }
+            ["dealloc-branch", id] => {
+                let Ok(id) = id.parse::<u32>() else { return "bad-op".into() };
+                self.damaged = true;
+                match map.deallocate_branch(id) {
+                    Some(b) => format!("some {}", b.len()),
+                    None => "none".into(),
+                }
+            }
+            ["push-key", id, k] => {
+                let (Ok(id), Some((o, sr))) = (id.parse::<u32>(), pk(k)) else { return "bad-op".into() };
+                self.damaged = true;
+                match map.get_leaf_mut(id) {
+                    Some(l) => {
+                        l.push_key(Key::new(o, sr));
+                        "true".into()
+                    }
+                    None => "false".into(),
+                }
+            }
+            ["push-value", id, v] => {
+                let (Ok(id), Ok(v)) = (id.parse::<u32>(), v.parse::<u64>()) else { return "bad-op".into() };
+                self.damaged = true;
+                match map.get_leaf_mut(id) {
+                    Some(l) => {
+                        l.push_value(Val::new(v));
+                        "true".into()
+                    }
+                    None => "false".into(),
+                }
+            }
+            ["take-keys", id] | ["take-values", id] | ["pop", id] => {
+                let Ok(id) = id.parse::<u32>() else { return "bad-op".into() };
+                self.damaged = true;
+                match map.get_leaf_mut(id) {
+                    Some(l) => {
+                        match ws[0] {
+                            "take-keys" => drop(l.take_keys()),
+                            "take-values" => drop(l.take_values()),
+                            _ => drop(l.pop()),
+                        }
+                        "true".into()
+                    }
+                    None => "false".into(),
+                }
+            }
+            ["remove-at", id, i] => {
+                let (Ok(id), Ok(i)) = (id.parse::<u32>(), i.parse::<usize>()) else { return "bad-op".into() };
+                self.damaged = true;
+                match map.get_leaf_mut(id) {
+                    Some(l) => {
+                        drop(l.remove_at(i));
+                        "true".into()
+                    }
+                    None => "false".into(),
+                }
+            }
             _ => "bad-op".into(),
         }
     }
